@@ -239,6 +239,54 @@ def rule_wake(ctx, rep):
         waitloop.check_wakers(rep, "C04.wake", fl, ctx.mod(F.lib, "perfn"), lambda name, ap: name == "call_rcu_completion.futex")
 
 
+LIST_PRIMS = ("cds_list_add", "cds_list_add_tail", "__cds_list_del", "cds_list_del", "cds_list_splice", "cds_list_move")
+
+
+def rule_listwho(ctx, rep):
+    """rcu_barrier() finds the helpers through call_rcu_data_list: a helper is on the list from before it can receive a
+    callback.  T8: the list is extended only by call_rcu_data_init (under call_rcu_mutex, before the helper pointer is published
+    and before its thread exists) and shortened only by _call_rcu_data_free; T2: in call_rcu_data_init the list insertion precedes
+    the publication of the helper and the creation of its thread."""
+    for fl in ALL:
+        F = FL[fl]
+        m = ctx.mod(F.lib, "flat")
+        adders, removers = {}, {}
+        for f in m.defined():
+            for i in f.all_insts():
+                if i.op != "store":
+                    continue
+                ch = i.scope_chain
+                if ch[0] not in LIST_PRIMS:
+                    continue
+                where = next((c for c in ch if c not in LIST_PRIMS), ch[-1])
+                aps = ir.ap_str(f, i.d["ap"])
+                val = ir.expr_str(ir.expr(f, i.args[0], 3))
+                if "call_rcu_data_list" in aps or "call_rcu_data_list" in val:
+                    (adders if ch[0] in ("cds_list_add", "cds_list_add_tail") else removers).setdefault(where, []).append(i)
+                    rep.touch(f)
+        pat.require(adders, "%s: no insertion into call_rcu_data_list found" % fl)
+        extra = sorted(set(adders) - {"call_rcu_data_init"})
+        if extra and "call_rcu_data_init" not in adders:
+            raise Broken("%s: call_rcu_data_list is extended by %s and call_rcu_data_init no longer does: renamed? table needs re-confirmation" % (fl, extra))
+        rep.check(not extra, "C04.who", fl + ".list-extended-by", "helpers are put on call_rcu_data_list only by call_rcu_data_init",
+                  "call_rcu_data_list is also extended in %s: a helper that links itself later can already hold callbacks that rcu_barrier() does not see" % extra,
+                  [adders[x][0].where() for x in extra][:2])
+        for root in (F.pfx + "_create_call_rcu_data", F.pfx + "_get_default_call_rcu_data"):
+            f = m.fn(root)
+            if f is None:
+                continue
+            ins = [i for i in f.all_insts() if i.op == "store" and i.scope_chain[0] in ("cds_list_add",) and "call_rcu_data_init" in i.scope_chain]
+            pc = [c for c in f.calls("pthread_create") if "call_rcu_data_init" in c.scope_chain]
+            pub = [s_ for s_ in f.all_insts() if s_.op == "store" and s_.scope_chain[0] == "call_rcu_data_init" and s_.d["order"] in ("release", "seq_cst")]
+            if not ins or not pc:
+                continue
+            rep.must_pass("C04.who", "%s.%s.listed≺thread" % (fl, root), f, [f.entry()], pc, lambda i: i in ins, include_start=True,
+                          what="the helper is on call_rcu_data_list before its thread is created")
+            if pub:
+                rep.must_pass("C04.who", "%s.%s.listed≺published" % (fl, root), f, [f.entry()], pub, lambda i: i in ins, include_start=True,
+                              what="the helper is on call_rcu_data_list before its pointer is published to callers")
+
+
 RULES = [
     ("C04.cs", rule_cs),
     ("C04.cs", rule_listcs),
@@ -249,5 +297,6 @@ RULES = [
     ("C04.offline", rule_offline),
     ("C04.fifo", rule_fifo),
     ("C04.wake", rule_wake),
+    ("C04.who", rule_listwho),
 ]
 FLOORS = {}
